@@ -46,7 +46,7 @@ class C07(Spec):
     impl_jobs = 8
     rule = ('generated models (IndepVarComp outputs promoted or not, inputs connected with src_indices on connect '
             'and on one promotes level, auto-IVC backed promoted inputs with src_shape / shared names / '
-            'set_input_defaults, 9 units) x addressable names (absolute output, promoted output, absolute input, '
+            'set_input_defaults also next to shape_by_conn inputs, inputs with units on unitless sources, 33 unit strings) x addressable names (absolute output, promoted output, absolute input, '
             'promoted auto-IVC name) x user indices (int, slice, array, tuple; negative entries) x unit strings x '
             'histories of 4-10 set/get with final_setup and run_model interleaved; every history is also executed '
             'entirely before final_setup, after final_setup and after run_model')
@@ -147,7 +147,12 @@ class C07(Spec):
                 inp['chain'] = chain
                 inp['shape'] = list(shp) if shp else [1]
                 inp['rshape'] = list(shp)
-                inp['units'] = rng.choice(s['fam'] + [None]) if s['units'] is not None else None
+                if s['units'] is not None:
+                    inp['units'] = rng.choice(s['fam'] + [None])
+                elif s['kind'] == 'ivc' and rng.random() < 0.4:
+                    inp['units'] = rng.choice(s['fam'])     # input with units on a unitless source
+                else:
+                    inp['units'] = None
                 sink['inputs'].append(inp)
             case['sinks'].append(sink)
         case['sources'] = [s for s in case['sources'] if s['kind'] == 'ivc' or s['nusers'] > 0]
@@ -158,6 +163,14 @@ class C07(Spec):
             if len(users) == 1 and not users[0]['chain'] and rng.random() < 0.5:
                 a['defaults'] = False
                 a['units'] = users[0]['units']
+        # a shape_by_conn input next to set_input_defaults (the tree is resolved again at final_setup)
+        nb = 0
+        for a in autos:
+            if a['defaults'] and rng.random() < 0.5:
+                case['sinks'].append({'name': 'B%d' % nb, 'depth': 0, 'inputs': [
+                    {'name': 'x0', 'src': a['name'], 'npro': 1, 'chain': [], 'shape': list(a['shape']),
+                     'rshape': list(a['shape']), 'units': a['units'], 'sbc': True}]})
+                nb += 1
         # addressable names
         for s in case['sources']:
             if s['kind'] == 'ivc':
@@ -194,10 +207,11 @@ class C07(Spec):
                 level = self.rnd_level(rng, n['shape'], 'user', user=True)
             vshape = level['out_shape'] if level else n['shape']
             units = None
-            if s['units'] is not None and rng.random() < 0.5:
+            su = s['units'] or n['units']     # a unitless source holds the number in the input's units
+            if su is not None and rng.random() < 0.5:
                 units = rng.choice(s['fam'])
             eff = units or n['units']
-            fac, off = conversion(eff, s['units']) if (eff and s['units']) else (F(1), F(0))
+            fac, off = conversion(eff, su) if (eff and su) else (F(1), F(0))
             inexact = (fac != 1 or off != 0)
             base = {'name': n['name'], 'indices': level['ix'] if level else None, 'level': level, 'units': units,
                     'inexact': inexact}
@@ -243,8 +257,9 @@ class C07(Spec):
             chain = n['chain'] + ([o['level']] if o['level'] else [])
             cterm = '[%s]' % '; '.join('(%s, %s)' % (boollit(lv['rflat']), idx_term(lv['ix'])) for lv in chain)
             eff = o['units'] or n['units']
-            if eff and s['units']:
-                ua, us = unit_term(eff), unit_term(s['units'])
+            su = s['units'] or n['units']
+            if eff and su:
+                ua, us = unit_term(eff), unit_term(su)
             else:
                 ua = us = unit_term(None)
             if o['op'] == 'set':
